@@ -146,6 +146,8 @@ type Config struct {
 	TxPerBlock int
 	MaxSteps   int
 	MaxClock   time.Duration
+	// TrySubscribeAlone: with MaxTPB == 0 first try to configure SubscribeForTxs alone.
+	TrySubscribeAlone bool
 	// KeyOf makes node j use the key pair of node KeyOf[j] (hot standby with the same identity).
 	KeyOf map[int]int
 	// ValSchedule returns node ids forming the validator list for the given block index.
@@ -645,6 +647,21 @@ func (n *Node) NewInstance() error {
 				c.emit(&Event{Node: n.ID, Kind: KSubscribe})
 			}),
 		)
+	}
+	if cfg.MaxTPB == 0 && cfg.TrySubscribeAlone {
+		// a configuration with the subscription callback but without the maximum block time: the
+		// library refuses it (then the proper configuration is used); if it does not, the run goes on with it
+		alt := append(append([]func(*dbft.Config[H]){}, opts...), dbft.WithSubscribeForTxs[H](func() {
+			n.Subscribed = true
+			c.emit(&Event{Node: n.ID, Kind: KSubscribe})
+		}))
+		if d, err := dbft.New[H](alt...); err == nil {
+			c.Stats["subscription-without-max-accepted"]++
+			n.D = d
+			n.lastSet = false
+			return nil
+		}
+		c.Stats["subscription-without-max-refused"]++
 	}
 	d, err := dbft.New[H](opts...)
 	if err != nil {
